@@ -73,8 +73,9 @@ def story_case(draw):
     else:
         prog = draw(gen.flat_program(min_n=2, max_n=5, max_ops=7))
     prog, _ = gen.limit_loss(prog, 4)
+    prog = gen.cap_herald_photons(prog, cap=4000)       # herald photons are part of the program: bounded by construction
     nv = prog["n"] - gen.count_heralds(prog)
-    nph = gen.fit_photons(prog, draw(st.sampled_from([0, 1, 2, 2, 3, 3])), cap=8000)
+    nph = gen.fit_photons(prog, draw(st.sampled_from([0, 1, 2, 2, 3, 3])), cap=4000)
     inputs = draw(st.lists(gen.fock_state(nv, nph), min_size=1, max_size=3, unique_by=tuple))
     ps = draw(postsel.post_selection(nv, nph))
     expected = [draw(st.lists(gen.fock_state(nv, nph), min_size=1, max_size=2)) for _ in inputs]
